@@ -412,18 +412,24 @@ pub fn run_ast(args: &[String]) {
                     fail(format!("width{}", w), format!("formatting changed the definition: {} vs {} -- text {:?}", p2, want, f1));
                     continue 'cases;
                 }
-                let f2 = re.get_multiline(0, *w);
+                let f2 = match catch_unwind(AssertUnwindSafe(|| re.get_multiline(0, *w))) {
+                    Ok(s) => s,
+                    Err(_) => { fail(format!("width{}", w), format!("formatting the formatted text panicked at width {} -- text {:?}", w, f1)); continue 'cases; }
+                };
                 if f2 != f1 {
                     fail(format!("width{}", w), format!("formatting is not idempotent at width {}: first {:?} second {:?}", w, f1, f2));
                     continue 'cases;
                 }
-                let col = idl.get_multiline_colored(0, *w);
+                let col = match catch_unwind(AssertUnwindSafe(|| idl.get_multiline_colored(0, *w))) {
+                    Ok(s) => s,
+                    Err(_) => { fail(format!("width{}", w), format!("get_multiline_colored panicked at width {}", w)); continue 'cases; }
+                };
                 if strip_ansi(&col) != f1 {
                     fail(format!("width{}", w), format!("coloured rendering differs from the plain one by more than escape sequences: {:?} vs {:?}", strip_ansi(&col), f1));
                     continue 'cases;
                 }
                 if *w == 80 {
-                    let disp = format!("{}", idl);
+                    let disp = catch_unwind(AssertUnwindSafe(|| format!("{}", idl))).unwrap_or_else(|_| "<Display panicked>".into());
                     if disp != f1 {
                         fail("display".into(), "Display differs from get_multiline(0, 80)".into());
                         continue 'cases;
